@@ -139,6 +139,8 @@ def items_for(tier, seed):
         gen = list(enumerate(U.enumerate_programs(3)))
         cmod = 11
         cap = 6000
+    for j, p in enumerate(U.handwritten()):
+        items.append(dict(ast=tuple(p), label="HW#%d" % j, want_c=True, cap=cap, levels=[[], ["-O0"], ["-O3"]]))
     for i, p in gen:
         lv = lvls if tier != "quick" else ([[], ["-O3"]] if i % 4 == seed % 4 else ([[], ["-O0"]] if i % 4 == (seed + 1) % 4 else [[]]))
         items.append(dict(ast=p, label="U#%d" % i, want_c=(i % cmod == seed % cmod), cap=cap, levels=lv))
